@@ -292,7 +292,7 @@ QUERIES = [
     {"name": "Q9a", "fn": q9a, "setup": setup_q9a,
      "shards": {"quick": [{"be": "slurm", "shape": "chain2"}, {"be": "slurm", "shape": "fork3"}, {"be": "lsf", "shape": "chain2"}, {"be": "local", "shape": "chain2"},
                           {"be": "slurm", "shape": "chain3", "prior": True}, {"be": "sge", "shape": "chain2", "prior": True},
-                          {"be": "slurm", "shape": "fork3", "progress": True}, {"be": "slurm", "shape": "chain3", "progress": True}, {"be": "slurm", "shape": "chain2", "late": True}, {"be": "sge", "shape": "chain2", "late": True}],
+                          {"be": "slurm", "shape": "fork3", "progress": True}, {"be": "slurm", "shape": "chain3", "progress": True}, {"be": "slurm", "shape": "chain2", "late": True}, {"be": "sge", "shape": "chain2", "late": True}, {"be": "lsf", "shape": "chain2", "prior": True}],
                 "thorough": [{"be": b, "shape": s, "prior": p} for b in ("slurm", "sge", "lsf", "local") for s in ("chain2", "fork3", "chain3") for p in (False, True)]
                             + [{"be": b, "shape": s, "progress": True} for b in ("slurm", "sge", "lsf") for s in ("fork3", "chain3")]},
      "timeout": {"quick": 900, "thorough": 1800},
